@@ -2,7 +2,7 @@ import MirVerif.Model.Sem
 import MirVerif.Model.SemFp
 /-! `mirdrv_c02`: evaluates the documented semantics (`docSem` & co.) on lines
 `<key> <hex a> <hex b>` and prints the documented result as hex (`undef` outside the domain).
-keys:  bin:<aop>:<0|1>   br:<aop>:<0|1>   ext:<k>:<0|1>   neg:<0|1>
+keys:  bin:<aop>:<0|1>   br:<aop>:<0|1>   ext:<k>:<0|1>   ext2:<k1>:<s1>:<k2>:<s2>   ldext:<t>:<k>:<s>   neg:<0|1>
        ov:<add|sub|mul|umul>:<0|1>:<res|sov|uov>   fp:<name>   ld:<type>   st:<type> -/
 open MirVerif
 
@@ -44,6 +44,12 @@ def evalLine (toks : List String) : String :=
         | none => "undef"
       | none => "bad-key"
     | ["ext", k, s] => hex (docExt k.toNat! (s == "1") a)
+    | ["ext2", k1, s1, k2, s2] =>   -- two extensions in a row (the optimizer merges them)
+      hex (docExt k2.toNat! (s2 == "1") (docExt k1.toNat! (s1 == "1") a))
+    | ["ldext", t, k, s] =>   -- an extension of a value loaded from memory of type t
+      match docLoad t a with
+      | some v => hex (docExt k.toNat! (s == "1") v)
+      | none => "bad-key"
     | ["neg", s] => hex (docNeg (s == "1") a)
     | ["ov", o, s, what] =>
       let short := s == "1"
